@@ -226,7 +226,92 @@ def _alias_set(text):
         k += 1
 
 
+# ---------------------------------------------------------------------------------------------
+# R16: iterator-idiom desugaring of `for PAT in SOURCE(.adapter)* {` loops (closed catalogue)
+ITER_SOURCES = ("cartesian_positions", "relative_positions", "periodic_images", "positions", "symmetries")
+
+
+def _split_chain(expr_b, expr):
+    """split `a.b(x).c(y)` at top-level dots into [(name, args_text_or_None, full_segment)]"""
+    segs = []
+    i, n, start = 0, len(expr_b), 0
+    while i < n:
+        ch = expr_b[i]
+        if ch in "([{":
+            i = R.match_close(expr_b, i)
+        elif ch == "." and i > 0 and not (expr_b[i - 1].isdigit() and i + 1 < n and expr_b[i + 1].isdigit()):
+            segs.append(expr[start:i])
+            start = i + 1
+        i += 1
+    segs.append(expr[start:])
+    return [x.strip() for x in segs]
+
+
+def _for_chain(text):
+    """R16: `for PAT in PREFIX.SOURCE(args)[.map(|q| e)][.enumerate()][.skip(e)] {`  ->
+           `let it_K = PREFIX.SOURCE_v(args); for ix_K in START..it_K.len() { let PAT = ELEM;`
+    (eager Vec instead of a lazy iterator: same elements, same order — assumed adapter semantics)."""
+    k = 0
+    pos = 0
+    while True:
+        b = R.blank(text)
+        m = re.compile(r"\bfor\s+").search(b, pos)
+        if not m:
+            return text, k
+        # pattern up to ` in `
+        j = m.end()
+        depth_ok = None
+        mi = re.compile(r"\s+in\s+").search(b, j)
+        if not mi:
+            pos = m.end(); continue
+        pat = text[j:mi.start()]
+        if "\n" in pat or "{" in pat:
+            pos = m.end(); continue
+        try:
+            o = R.find_body_open(b, mi.end())
+        except ExtractError:
+            pos = m.end(); continue
+        expr = text[mi.end():o]
+        expr_b = b[mi.end():o]
+        segs = _split_chain(expr_b, expr)
+        src_idx = None
+        for idx, sg in enumerate(segs):
+            mm = re.match(r"(\w+)\s*\(", sg)
+            if mm and mm.group(1) in ITER_SOURCES:
+                src_idx = idx
+        if src_idx is None:
+            pos = o; continue
+        k += 1
+        name = re.match(r"(\w+)", segs[src_idx]).group(1)
+        src_call = ".".join(segs[:src_idx] + [segs[src_idx].replace(name, name + "_v", 1)])
+        src_call = " ".join(src_call.split())
+        it, ix = "it_%d" % k, "ix_%d" % k
+        elem = "%s[%s]" % (it, ix)
+        start = "0"
+        for sg in segs[src_idx + 1:]:
+            sg1 = " ".join(sg.split())
+            mm = re.match(r"map\s*\(\s*(?:move\s+)?\|\s*([^|]*?)\s*\|\s*(.*)\)$", sg1)
+            if mm:
+                elem = "{ let %s = %s; %s }" % (mm.group(1), elem, mm.group(2))
+                continue
+            if re.match(r"enumerate\s*\(\s*\)$", sg1):
+                elem = "(%s, %s)" % (ix if start == "0" else "%s - (%s)" % (ix, start), elem)
+                continue
+            mm = re.match(r"skip\s*\((.*)\)$", sg1)
+            if mm:
+                start = mm.group(1) if start == "0" else "%s + (%s)" % (start, mm.group(1))
+                continue
+            raise ExtractError("R16: adapter outside the catalogue: ." + sg1[:60])
+        new = "let %s = %s; for %s in %s..%s.len() { let %s = %s;" % (it, src_call, ix, start, it, pat.strip(), elem)
+        old = text[m.start():o + 1]
+        text = text[:m.start()] + new + _blank_lines(old) + text[o + 1:]
+        pos = m.start() + len(new)
+
+
 GROUPS = {
+    "iter": [
+        ("R16", _for_chain, None),
+    ],
     "alias": [
         ("R8", _alias_set, None),
         ("R8", r"\bself\s*\.\s*value\s*\.\s*get_value\s*\(\s*\)", "self.cur"),
